@@ -31,10 +31,11 @@ VARIABLES t,        \* index of the trace being replayed
           snapK,    \* cycle number of the last boundary snapshot (-1 = none yet)
           snapA,    \* assignment at that boundary
           accepted, \* pairs {x, y} for which an accepted MGM2 offer was delivered since the boundary
+          inbox,    \* [<<src, dst>> -> Seq(value index)]: the values carried by the value messages delivered so far (DSA)
           bad,      \* set of <<clause, event index, context>> that failed; context = "pair" when an accepted
                     \* coordinated (MGM2) offer was delivered in the current cycle, else "solo"
           wit       \* witness counters: how often the antecedents were exercised
-vars == <<t, l, chan, reinj, started, val, cyc, fin, snapK, snapA, accepted, bad, wit>>
+vars == <<t, l, chan, reinj, started, val, cyc, fin, snapK, snapA, accepted, inbox, bad, wit>>
 
 T == Traces[t]
 I == T.inst
@@ -52,6 +53,7 @@ Init == /\ t \in 1..Len(Traces)
         /\ cyc = [c \in Comp |-> 0]
         /\ fin = {}
         /\ snapK = -1 /\ snapA = <<>> /\ accepted = {}
+        /\ inbox = [p \in VComp \X VComp |-> <<>>]
         /\ bad = {}
         /\ wit = [boundaries |-> 0, stagnations |-> 0, moves |-> 0, finals |-> 0, sels |-> 0]
 
@@ -83,7 +85,17 @@ Boundary(st, cy) == IF st = Comp /\ Active # {} /\ (\A x, y \in Active : cy[x] =
 Changed(a, b) == {v \in VComp : a[v] # b[v]}
 
 \* clauses that fail on the step from the current state to the primed one; e is the event
-NewBad(e, v2, c2, f2, ch2, rj2, st2, acc2) ==
+\* DSA: a change of value must go to a best response to the neighbours' values of that evaluation.
+\* Synchronous DSA: the (k+1)-th evaluation of c uses the (k+1)-th value message of every neighbour, k = cycles completed
+\* before the step.  A-DSA: the latest value received from every neighbour.
+DsaView(c, ib, k, latest) == [n \in Nbrs(I, c) |-> IF latest THEN ib[<<n, c>>][Len(ib[<<n, c>>])] ELSE ib[<<n, c>>][k + 1]]
+DsaMoveBad(e, v2, ib, latest) ==
+  /\ e.c \in VComp /\ val[e.c] # 0 /\ v2[e.c] # val[e.c] /\ v2[e.c] \in 1..I.dsize[e.c]
+  /\ LET c == e.c  k == cyc[c] IN
+     IF \E n \in Nbrs(I, c) : Len(ib[<<n, c>>]) < (IF latest THEN 1 ELSE k + 1) THEN TRUE
+     ELSE v2[c] \notin ArgBestLocal(I, c, DsaView(c, ib, k, latest) @@ (c :> v2[c]))
+
+NewBad(e, v2, c2, f2, ch2, rj2, st2, acc2, ib2) ==
   LET k == Boundary(st2, c2)
       newBoundary == k >= 0 /\ k # snapK
       consecutive == newBoundary /\ snapK >= 0 /\ k = snapK + 1 /\ Complete(I, snapA) /\ Complete(I, v2)
@@ -107,6 +119,8 @@ NewBad(e, v2, c2, f2, ch2, rj2, st2, acc2) ==
               x # y /\ ShareCon(I, x, y) /\ {x, y} \notin acc2
         THEN {"C03_neighbours_moved_together"} ELSE {})
   \cup (IF P("c04") /\ consecutive /\ snapA = v2 /\ ~OneOpt(I, v2) THEN {"C04_stagnation_not_one_opt"} ELSE {})
+  \cup (IF P("dsa") /\ DsaMoveBad(e, v2, ib2, FALSE) THEN {"C06_dsa_move_not_best_response"} ELSE {})
+  \cup (IF P("adsa") /\ DsaMoveBad(e, v2, ib2, TRUE) THEN {"C06_dsa_move_not_best_response"} ELSE {})
   \cup (IF P("sat") /\ e.finev # <<>> /\ ~(Complete(I, v2) /\ Satisfies(I, v2, T.infinity))
         THEN {"C09_finished_on_violated_constraint"} ELSE {})
 
@@ -125,15 +139,19 @@ Step ==
             c2  == IF e.c \in Comp THEN [cyc EXCEPT ![e.c] = e.cyc] ELSE cyc
             f2  == fin \cup {e.finev[i] : i \in 1..Len(e.finev)}
             acc2 == accepted \cup AcceptedNow(e)
+            \* a delivery to a computation that is not started yet is only buffered: it is handled at its re-injection
+            ib2 == IF e.e \in {"deliver", "reinj"} /\ "mval" \in DOMAIN e /\ e.c \in started
+                   THEN [inbox EXCEPT ![<<e.src, e.c>>] = Append(@, e.mval)] ELSE inbox
             k   == Boundary(st2, c2)
             nb  == k >= 0 /\ k # snapK
             cons == nb /\ snapK >= 0 /\ k = snapK + 1
         IN
         /\ chan' = ch2 /\ reinj' = rj2 /\ started' = st2 /\ val' = v2 /\ cyc' = c2 /\ fin' = f2
-        /\ bad' = bad \cup {<<b, l, IF acc2 # {} THEN "pair" ELSE "solo">> : b \in NewBad(e, v2, c2, f2, ch2, rj2, st2, acc2)}
+        /\ bad' = bad \cup {<<b, l, IF acc2 # {} THEN "pair" ELSE "solo">> : b \in NewBad(e, v2, c2, f2, ch2, rj2, st2, acc2, ib2)}
         /\ snapK' = IF nb THEN k ELSE snapK
         /\ snapA' = IF nb THEN v2 ELSE snapA
         /\ accepted' = IF nb THEN {} ELSE acc2
+        /\ inbox' = ib2
         /\ wit' = [boundaries |-> wit.boundaries + (IF cons THEN 1 ELSE 0),
                    stagnations |-> wit.stagnations + (IF cons /\ snapA = v2 THEN 1 ELSE 0),
                    moves |-> wit.moves + (IF cons /\ snapA # v2 THEN 1 ELSE 0),
